@@ -88,6 +88,10 @@ func genC13(rt *rapid.T, tier string) any {
 			if lenMode == 1 && rapid.Bool().Draw(rt, "droplen") {
 				x.HasLen = false
 			}
+			if x.HasLen && rapid.IntRange(0, 9).Draw(rt, "oddlen") == 0 {
+				// lengths with many significant digits, tiny or large: a writer must not round them
+				x.Len = []float64{1.23456789e-7, 3.0000000001e-9, 123456.789, 1e-12, 0.1 + 0.2, 9.87654321e-5, 1e21}[rapid.IntRange(0, 6).Draw(rt, "oddlenv")]
+			}
 			if !x.IsTip() && x.Parent != nil {
 				switch rapid.IntRange(0, 3).Draw(rt, "innerlabel") {
 				case 0:
